@@ -396,6 +396,27 @@ def check_proto(mp, label):
     signal.alarm(20)
     model = None
     stage = "deserialize"
+    if isinstance(mp, onnx.ModelProto) and mp.graph.node:
+        # a failed deserialization earlier in the same process must leave nothing behind: a variant of this very proto (same
+        # names) that is rejected half-way - the first output of its last node is redeclared by an extra node - goes first
+        try:
+            poison = onnx.ModelProto()
+            poison.CopyFrom(mp)
+            outs = [o for n in poison.graph.node for o in n.output if o]
+            if outs:
+                poison.graph.node.add(op_type="Redeclare", output=[outs[0]], name="c17_poison")
+                try:
+                    ir.from_proto(poison)
+                except _Timeout:
+                    raise
+                except Exception:
+                    pass
+        except _Timeout:
+            signal.alarm(0)
+            signal.signal(signal.SIGALRM, old)
+            return fails, None, "inconclusive-timeout"
+        except Exception:
+            pass
     try:
         with fsmon.recording() as ev:
             try:
@@ -431,6 +452,21 @@ def check_proto(mp, label):
             bad = _foreign_owner(model)
             if bad:
                 fails.append(("inconsistent-ir/node-output-owned-by-another-graph", f"{label}: {bad}"))
+            if isinstance(mp, onnx.ModelProto) and isinstance(model, ir.Model) and not any(
+                    len({a.name for a in n.attribute}) != len(n.attribute) for n, _ in _all_nodes(mp)):
+                # every user of a value of the model is a node of the model (a body dropped because its attribute name occurs
+                # twice keeps its uses of outer values: such protos are left out)
+                members = {id(n) for g_ in [model.graph] + [f.graph for f in model.functions.values()] for n in ir.traversal.RecursiveGraphIterator(g_)}
+                stray = None
+                for g_ in [model.graph] + [f.graph for f in model.functions.values()]:
+                    for n in ir.traversal.RecursiveGraphIterator(g_):
+                        for v in n.inputs:
+                            if v is not None:
+                                for un, _ in v.uses():
+                                    if id(un) not in members:
+                                        stray = (v.name, un.name, un.op_type, n.name)
+                if stray:
+                    fails.append(("inconsistent-ir/value-used-by-a-node-outside-the-model", f"{label}: value {stray[0]!r} read by node {stray[3]!r} is also used by node {stray[1]!r} ({stray[2]}), which is not in the deserialized model"))
             if isinstance(mp, onnx.ModelProto) and isinstance(model, ir.Model):
                 # every consumer is wired to the definition the scoping rule names (resolved on the proto, independently)
                 from vlib import wiring
